@@ -47,12 +47,53 @@ def build_harness(release=False):
     return path
 
 
+def _limits():
+    import resource
+    resource.setrlimit(resource.RLIMIT_AS, (8 << 30, 8 << 30))      # an endless allocation loop aborts
+    resource.setrlimit(resource.RLIMIT_CORE, (0, 0))
+
+
 def vh(args, release=False, timeout=1800, check=True):
     exe = build_harness(release)
-    r = subprocess.run([exe] + [str(a) for a in args], stdout=subprocess.PIPE, stderr=subprocess.PIPE, text=True, timeout=timeout)
+    try:
+        r = subprocess.run([exe] + [str(a) for a in args], stdout=subprocess.PIPE, stderr=subprocess.PIPE, text=True, timeout=timeout, preexec_fn=_limits)
+    except subprocess.TimeoutExpired as e:
+        if check:
+            raise ToolError("harness %s timed out after %ss" % (args[:2], timeout))
+        r = subprocess.CompletedProcess(e.cmd, -99, "", "timeout")
     if check and r.returncode != 0:
         raise ToolError("harness %s failed rc=%s: %s" % (args[:2], r.returncode, r.stderr[-2000:]))
     return r
+
+
+def vh_trace(args, out_path, release=False, timeout=120):
+    """Run a trace-producing driver. If the code under test kills or hangs the harness process
+    (abort, out of memory, endless loop), keep the trace written so far and append a `crashed`
+    event naming the call that was running: no spec action explains it, so it is a rejection."""
+    r = vh(list(args) + ["--out", out_path], release=release, timeout=timeout, check=False)
+    evs = []
+    if os.path.exists(out_path):
+        with open(out_path) as f:
+            for l in f:
+                try:
+                    evs.append(json.loads(l))
+                except Exception:
+                    break     # torn last line
+        os.remove(out_path)
+    cur = out_path + ".cur"
+    during = None
+    if os.path.exists(cur):
+        try:
+            during = json.load(open(cur))
+        except Exception:
+            during = None
+        os.remove(cur)
+    if r.returncode != 0:
+        if not evs:
+            raise ToolError("harness %s failed rc=%s before logging anything: %s" % (args[:2], r.returncode, r.stderr[-1500:]))
+        log("[harness] %s died rc=%s during %s" % (args[0], r.returncode, json.dumps(during)[:200]))
+        evs.append({"op": "crashed", "rc": r.returncode if r.returncode > -99 else "timeout", "during": during or {"op": "unknown"}})
+    return evs
 
 
 # ----------------------------------------------------------------- TLC
@@ -240,6 +281,41 @@ def validate_trace(module_path, cfg, events, tag, parallel=8, chunk_events=6000,
     return res
 
 
+# ----------------------------------------------------------------- oracle runs (R3)
+def run_oracle(module_path, records, tag, workers=12, timeout=1800, chunk=4000, parallel=3):
+    """Judge recorded (input, output) pairs with a TLA+ oracle: every record is one TLC initial
+    state, the Next action evaluates Bad(record).  Returns dict(judged, rejects=[(record, badset)])."""
+    res = {"judged": 0, "rejects": [], "states": 0, "transitions": 0, "tlc_wall": 0.0}
+    chunks = [records[k:k + chunk] for k in range(0, len(records), chunk)]
+
+    def one(k, recs):
+        path = os.path.join(OUT, "traces", "%s-%d-%d.ndjson" % (tag, os.getpid(), k))
+        write_ndjson(path, recs)
+        r = tlc(module_path, "Oracle.cfg", workers=max(2, workers // parallel), timeout=timeout, env={"RECORDS": path}, tag=tag, heap="6g")
+        os.remove(path)
+        return r
+
+    with ThreadPoolExecutor(max_workers=parallel) as ex:
+        futs = [(recs, ex.submit(one, k, recs)) for k, recs in enumerate(chunks)]
+        for recs, f in futs:
+            r = f.result()
+            tf = r.tool_failure()
+            if tf or not r.ok:
+                raise ToolError("oracle %s: %s\n%s" % (module_path, tf, r.out[-2500:]))
+            if r.distinct != 2 * len(recs):
+                raise ToolError("oracle %s judged %d states for %d records\n%s" % (module_path, r.distinct, len(recs), r.out[-1500:]))
+            res["judged"] += len(recs)
+            res["states"] += r.distinct
+            res["transitions"] += r.generated
+            res["tlc_wall"] += r.wall
+            for line in r.printed("REJECT"):
+                m = re.match(r'<<"REJECT", (\d+), \{(.*)\}>>', line)
+                idx = int(m.group(1)) - 1
+                bad = sorted(x.strip().strip('"') for x in m.group(2).split(","))
+                res["rejects"].append((recs[idx], bad))
+    return res
+
+
 # ----------------------------------------------------------------- findings
 def load_known():
     p = os.path.join(VERIF, "KNOWN_FINDINGS.json")
@@ -282,6 +358,10 @@ class Run:
         self.extra = {}
         self.assumptions = []
         self.mc_runs = []
+        # replay files of earlier runs of this property are stale
+        import glob
+        for f in glob.glob(os.path.join(OUT, "replay", "%s-*.ndjson" % prop)):
+            os.remove(f)
 
     def add_mc(self, name, r, expect_ok=True):
         tf = r.tool_failure()
